@@ -415,4 +415,47 @@ theorem exec_moduleDefinition (call : CallFn N) (ρ : ExtOracle N) (k : Nat) (en
   exact exec_do_two call ρ (k + 1) env _ _ _ _ σ _ _ e1 e2
 
 
+
+/-- state after `local M = { cache = {} :: any }` -/
+def afterTable (σ : State N) : State N :=
+  ((((σ.allocTable { entries := [], mt := none }).2.allocTable { entries := [], mt := none }).2.rawSet
+      σ.tables.length (strVal "cache") (.tbl (σ.tables.length + 1))).allocCell (.tbl σ.tables.length)).2
+
+theorem exec_modulesTable (call : CallFn N) (ρ : ExtOracle N) (k : Nat) (env : Env N) (M : String) (σ : State N) :
+    execS call ρ k env (modulesTable M) σ
+      = .ok (.next ⟨(M, σ.cells.length) :: env.locals, env.varargs⟩) (afterTable σ) := by
+  simp [modulesTable, execS, evalEs, evalE, evalEntries, Res.bind, bindLocals, TName.name, first, afterTable,
+    State.allocTable, State.allocCell, State.rawSet, State.getTable, State.setTable]
+
+theorem exec_do_one (call : CallFn N) (ρ : ExtOracle N) (k : Nat) (env env1 : Env N) (s1 : Stmt) (σ σ1 : State N)
+    (h1 : execS call ρ k env s1 σ = .ok (.next env1) σ1) :
+    execS call ρ k env (.doBlock (.mk [s1] none)) σ = .ok (.next env) σ1 := by
+  simp [execS, execB, execSs, h1, Res.bind]
+
+/-- Executing the statements `apply` puts in front of the entry (one module): afterwards only the
+modules identifier `M` has been added to the scope, and the state is the modules table followed
+by the module definition. -/
+theorem prelude_single (call : CallFn N) (ρ : ExtOracle N) (k : Nat) (env : Env N) (M name : String) (B : Block)
+    (σ : State N) (hMI : M ≠ implName) (hname : name.toUTF8.toList ≠ "cache".toUTF8.toList) :
+    execSs call ρ (k + 1) env (prelude M [(name, B)]) σ
+      = .ok (.next ⟨(M, σ.cells.length) :: env.locals, env.varargs⟩)
+          (afterDefinition M name B ((M, σ.cells.length) :: env.locals) σ.tables.length (afterTable σ)) := by
+  have hcell : (afterTable σ).getCell σ.cells.length = .tbl σ.tables.length := by
+    simp [afterTable, State.getCell, State.allocCell, State.rawSet, State.setTable, State.allocTable]
+  have hT : (afterTable σ).getTable σ.tables.length
+      = { entries := [(strVal "cache", .tbl (σ.tables.length + 1))], mt := none } := by
+    simp [afterTable, State.getTable, State.allocCell, State.rawSet, State.setTable, State.allocTable,
+      listSet_get_same, rawSetEntries]
+  have hslot : (afterTable σ).rawGet σ.tables.length (strVal name) = .nil := by
+    have hne : ¬ "cache".toUTF8.toList = name.toUTF8.toList := fun h => hname h.symm
+    simp [State.rawGet, hT, rawGetEntries, rawEq, strVal]
+    exact hne
+  have hmt : ((afterTable σ).getTable σ.tables.length).mt = none := by rw [hT]
+  have e2 := exec_moduleDefinition call ρ k ⟨(M, σ.cells.length) :: env.locals, env.varargs⟩ M name B
+    σ.cells.length σ.tables.length (afterTable σ) hMI (by simp [lookupAssoc]) hcell hslot hmt
+  have e3 := exec_do_one call ρ (k + 1) _ _ _ _ _ e2
+  simp only [prelude, List.map, execSs, exec_modulesTable, Res.bind]
+  rw [e3]
+
+
 end DarkluaModel.C05
